@@ -1,10 +1,12 @@
-(** C18 — the arithmetic clauses of [spec_check], assembled: if [spec_check] accepts a case, every observed
-    arithmetic result equals the IEEE operation applied to the OBSERVED operands, and every observed binary64
-    result is the correct rounding of the observed extended result. *)
-From Coq Require Import ZArith Reals Bool Floats.SpecFloat Lia.
+(** C18 — the clauses of [spec_check], assembled: if [spec_check] accepts a case, every observed
+    arithmetic result equals the IEEE operation applied to the OBSERVED operands, every observed binary64
+    result is the correct rounding of the observed extended result, and (group [OExt]) every relation / [min] /
+    [max] / [abs] observed on extended-format operands is the IEEE one on the OBSERVED raw operands. *)
+From Coq Require Import ZArith Reals Bool List Floats.SpecFloat Lia.
 From Flocq Require Import Core.Zaux Core.Raux Core.Defs Core.Generic_fmt Core.FLT Core.Round_NE
   IEEE754.BinarySingleNaN.
-From RlibV Require Import C18.Model C18.Corr C18.Spec C18.ProofsRneZ C18.ProofsSpecSound.
+From RlibV Require Import C18.Model C18.Corr C18.Spec C18.ProofsConv C18.ProofsRneZ C18.ProofsSpecSound
+  C18.ProofsSpecExt.
 Open Scope Z_scope.
 
 (** the integer nearest-even test, against Flocq's rounding, for every format *)
@@ -49,6 +51,7 @@ Ltac split_and H :=
 Lemma spec_check_arith op a b o : spec_check (Case op a b o) = true -> arith_sound op o.
 Proof.
   intros H. unfold spec_check in H. cbv zeta in H.
+  apply andb_prop in H. destruct H as [H Hext].
   apply andb_prop in H. destruct H as [H Habs].
   apply andb_prop in H. destruct H as [H Hminmax].
   apply andb_prop in H. destruct H as [H Hrel].
@@ -68,4 +71,52 @@ Proof.
     try (apply spec_sub_model; assumption);
     try (apply spec_mul_model; assumption);
     try (apply spec_div_model; assumption).
+Qed.
+
+(** ** the group [OExt] *)
+Definition ext_sound (o : obs) : Prop :=
+  (forall u v r, In (u, v, r) (ext_pairs o) -> rel_sound u v r)
+  /\ (forall u a, In (u, a) (ext_abs o) -> abs_sound u a)
+  /\ decode64 (x_nmad (o_ext o)) = narrow (decode80 (o_mad o))
+  /\ (forall n w, In (n, w) (ext_widened o) -> decode80 w = widen (decode64 n)).
+
+Lemma spec_check_ext op a b o : spec_check (Case op a b o) = true -> sel op OExt = true -> ext_sound o.
+Proof.
+  intros H Hsel. unfold spec_check in H. cbv zeta in H.
+  apply andb_prop in H. destruct H as [_ H]. rewrite Hsel in H.
+  apply andb_prop in H. destruct H as [H Habs].
+  apply andb_prop in H. destruct H as [H Hrel].
+  apply andb_prop in H. destruct H as [H Hwid].
+  apply andb_prop in H. destruct H as [Hval Hrnd].
+  rewrite forallb_forall in Habs, Hrel, Hwid.
+  unfold ext_sound. split; [|split; [|split]].
+  - intros u v r Hin. apply spec_rel_sound. exact (Hrel _ Hin).
+  - intros u a' Hin. apply spec_abs_sound. exact (Habs _ Hin).
+  - now apply spec_round_narrow.
+  - intros n w Hin. apply spec_widen_sound; [apply decode64_valid|]. exact (Hwid _ Hin).
+Qed.
+
+(** everything together, in the shape of the property statement *)
+Definition check_sound (op : opk) (o : obs) : Prop :=
+  let x := decode80 (o_wa o) in
+  let y := decode80 (o_wb o) in
+  (sel op OAdd = true -> valid80 x /\ valid80 y /\ decode80 (o_add o) = add80 x y
+                         /\ decode64 (o_nadd o) = narrow (decode80 (o_add o)))
+  /\ (sel op OSub = true -> valid80 x /\ valid80 y /\ decode80 (o_sub o) = sub80 x y
+                         /\ decode64 (o_nsub o) = narrow (decode80 (o_sub o)))
+  /\ (sel op OMul = true -> valid80 x /\ valid80 y /\ decode80 (o_mul o) = mul80 x y
+                         /\ decode64 (o_nmul o) = narrow (decode80 (o_mul o)))
+  /\ (sel op ODiv = true -> valid80 x /\ valid80 y /\ decode80 (o_div o) = div80 x y
+                         /\ decode64 (o_ndiv o) = narrow (decode80 (o_div o)))
+  /\ (sel op OChain = true -> valid80 x /\ valid80 y /\ valid80 (decode80 (o_mul o))
+                         /\ decode80 (o_mad o) = add80 (decode80 (o_mul o)) x
+                         /\ decode80 (o_chain o) = div80 (decode80 (o_mad o)) y
+                         /\ decode64 (o_nchain o) = narrow (decode80 (o_chain o)))
+  /\ (sel op OExt = true -> ext_sound o).
+
+Lemma spec_check_sound op a b o : spec_check (Case op a b o) = true -> check_sound op o.
+Proof.
+  intros H. destruct (spec_check_arith op a b o H) as (A1 & A2 & A3 & A4 & A5).
+  unfold check_sound. cbv zeta.
+  repeat (split; [assumption|]). exact (spec_check_ext op a b o H).
 Qed.
